@@ -112,6 +112,9 @@ class Universe:
             CTX.paths.append(p)
             try:
                 self.interp.exec_block(tree.body, env, m)
+            except BaseException:
+                self.modules.pop(dotted, None)       # a module that failed to import is not importable
+                raise
             finally:
                 CTX.paths.pop()
         return m
@@ -392,6 +395,11 @@ class Interp:
                 v.owner = cls
             if isinstance(v, PropertyVal) and v.fget.owner is None:
                 v.fget.owner = cls
+        if any(isinstance(b, ClassVal) and b.name == 'Enum' and b.module is None for b in cls.mro[1:]):
+            # enum model: every plain class attribute becomes a member object (identity comparison, .name, .value)
+            for k, v in list(cenv.vars.items()):
+                if not k.startswith('__') and not isinstance(v, (FunctionVal, PropertyVal, StaticVal)):
+                    cenv.vars[k] = Inst(cls, {'name': k, 'value': v, '_name_': k, '_value_': v})
         out = cls
         for d in reversed(s.decorator_list):
             dec = self.ev(d, env, mod)
@@ -612,7 +620,8 @@ class Interp:
             if isinstance(a, AList) or isinstance(b, AList):
                 from . import seq
                 return seq.concat(a, b)
-            if isinstance(a, (str, SLabel, Opaque)) and isinstance(b, (str, SLabel, Opaque)):
+            from .values import AbstractCall
+            if isinstance(a, (str, SLabel, Opaque, AbstractCall)) and isinstance(b, (str, SLabel, Opaque, AbstractCall)):
                 return Opaque('string concatenation')
         if op == '*':
             if isinstance(a, (list, tuple, str)) and isinstance(b, int):
@@ -621,9 +630,13 @@ class Interp:
                 return b * a
         if op == '%' and isinstance(a, str):
             return Opaque('string formatting')
+        if op in ('-', '+') and isinstance(a, tuple) and isinstance(b, tuple) and len(a) == len(b) == 2 and op == '-':
+            return (ops.arith('-', a[0], b[0]), ops.arith('-', a[1], b[1]))      # schemdraw.util.Point arithmetic
         if op == '@':
             from .arrays import matmul
             return matmul(self, a, b)
+        if op == '|' and (isinstance(a, (ClassVal, Builtin, Opaque)) or a is None) and (isinstance(b, (ClassVal, Builtin, Opaque)) or b is None):
+            return Opaque('typing union')
         if op in ('|', '&') and isinstance(a, (bool, SBool)) and isinstance(b, (bool, SBool)):
             return ops.s_or(a, b) if op == '|' else ops.s_and(a, b)
         if op == '|' and isinstance(a, ISet) and isinstance(b, ISet):
@@ -785,6 +798,13 @@ class Interp:
 
     # calls ---------------------------------------------------------------------------------
     def ex_Call(self, e, env, mod):
+        if isinstance(e.func, ast.Name) and e.func.id == 'super' and not e.args and not e.keywords:
+            try:
+                cls = env.lookup('__class__')
+                obj = env.lookup('__self__')
+            except KeyError:
+                raise OutOfSubset('super() outside a method')
+            return SuperProxy(cls, obj)
         fn = self.ev(e.func, env, mod)
         args = []
         for a in e.args:
@@ -878,6 +898,9 @@ class Interp:
 
     def call_function(self, fn, args, kwargs):
         env = self.bind(fn, args, kwargs)
+        if fn.owner is not None and args:
+            env.vars['__class__'] = fn.owner
+            env.vars['__self__'] = args[0]
         self.depth += 1
         if self.depth > 60:
             self.depth -= 1
@@ -900,6 +923,9 @@ class Interp:
         if getattr(cls, 'native_new', None):
             return cls.native_new(self, cls, args, kwargs)
         inst = Inst(cls, {})
+        from .schemdraw_model import BASE as _SD_BASE, prepare as _sd_prepare
+        if _SD_BASE in cls.mro:
+            _sd_prepare(inst, kwargs)
         for c in cls.mro:
             for k, v in c.ns.items():
                 f = v.fget if isinstance(v, PropertyVal) else v
@@ -942,6 +968,9 @@ class Interp:
             return inst
         if cls.has('__init__'):
             init = cls.lookup('__init__')
+            if isinstance(init, Builtin) and getattr(init, 'is_method', False):
+                init.fn([inst] + list(args), kwargs)
+                return inst
             if isinstance(init, FunctionVal):
                 inst.initialising = True
                 try:
@@ -956,6 +985,26 @@ class Interp:
     # attributes ------------------------------------------------------------------------------
     def getattr(self, obj, name):
         obj = force(obj)
+        if isinstance(obj, SuperProxy):
+            inst = force(obj.obj)
+            mro = inst.cls.mro if isinstance(inst, Inst) else []
+            start = mro.index(obj.cls) + 1 if obj.cls in mro else 0
+            for c in mro[start:]:
+                if name in c.ns:
+                    v = c.ns[name]
+                    if isinstance(v, FunctionVal):
+                        return BoundMethod(v, inst)
+                    if isinstance(v, Builtin):
+                        return Builtin(v.name, lambda a, k, v=v: v.fn([inst] + list(a), k))
+                    if isinstance(v, PropertyVal):
+                        return self.call(v.fget, [inst], {})
+                    return v
+                hook = getattr(c, 'native_getattr', None)
+                if hook is not None:
+                    return hook(self, inst, name)
+            if name in ('__init__', '__post_init__'):
+                return Builtin('object.' + name, lambda a, k: None)
+            raise_py('AttributeError', f'super object has no attribute {name}')
         if isinstance(obj, Inst):
             if name in obj.attrs:
                 return obj.attrs[name]
@@ -964,9 +1013,10 @@ class Interp:
             try:
                 v = obj.cls.lookup(name)
             except KeyError:
-                hook = getattr(obj.cls, 'native_getattr', None)
-                if hook is not None:
-                    return hook(self, obj, name)
+                for c in obj.cls.mro:
+                    hook = getattr(c, 'native_getattr', None)
+                    if hook is not None:
+                        return hook(self, obj, name)
                 raise_py('AttributeError', f'{obj.cls.name} has no attribute {name}')
             if isinstance(v, FunctionVal):
                 return BoundMethod(v, obj)
@@ -976,6 +1026,8 @@ class Interp:
                 return v.fn
             if isinstance(v, FieldSpec):
                 raise_py('AttributeError', name)
+            if isinstance(v, Builtin) and getattr(v, 'is_method', False):
+                return Builtin(v.name, lambda a, k, v=v: v.fn([obj] + list(a), k))
             return v
         if isinstance(obj, ModuleVal):
             if getattr(obj, 'is_stub', False):
@@ -1089,6 +1141,11 @@ class Interp:
 
 FSTR_HOLE = object()
 _NO_MERGE = object()
+
+
+class SuperProxy:
+    def __init__(self, cls, obj):
+        self.cls, self.obj = cls, obj
 
 
 def qualprefix(env):
